@@ -353,7 +353,8 @@ class Gap:
                 R.raw(e[2])
                 R.tags.add("comment")
             else:
-                R.bound("sib")
+                if R._pending is None:
+                    R.bound("sib")     # (a pending prefix boundary is kept: "#* #_ x y")
                 R.punct("#_")
                 R.push(("S", "discard", 1))
                 R.raw(e[1])
@@ -653,8 +654,9 @@ _SUGAR = {"quote": "'", "quasiquote": "`", "unquote": "~", "unquote-splice": "~@
 class Sugar(Node):
     """'x `x ~x ~@x #* x #** x, or the corresponding long form (head x)."""
 
-    def __init__(self, head, child, long=False, ws=""):
-        self.head, self.child, self.long, self.ws = head, child, long, ws
+    def __init__(self, head, child, long=False, gap=None):
+        self.head, self.child, self.long = head, child, long
+        self.gap = gap or Gap()      # separators between the prefix and its operand
 
     def _long(self, R):
         return self.long if R.sugar == "chosen" else R.sugar == "long"
@@ -680,11 +682,12 @@ class Sugar(Node):
             R.punct(pre)
             R.push(("S", self.head, 1))
             h = sym(self.head, own=False)
-            if R.seps == "rich":
-                R.raw(self.ws)
-                if self.ws:
-                    R.tags.add("sugar-ws")
             R.bound("hash" if pre[0] == "#" else "tilde" if pre == "~" else None)
+            if R.seps == "rich" and self.gap.elts:
+                self.gap.render(R)
+                R.tags.add("sugar-ws")
+                if self.gap.has_noise():
+                    R.tags.add("sugar-noise")
             c = self.child.render(R)
             R.pop()
             R.tags.add("sugar:" + pre)
@@ -696,8 +699,10 @@ class Sugar(Node):
 class Annot(Node):
     """#^ TYPE TARGET, or the long form (annotate TARGET TYPE)."""
 
-    def __init__(self, typ, target, long=False, ws1="", ws2=" "):
-        self.typ, self.target, self.long, self.ws1, self.ws2 = typ, target, long, ws1, ws2
+    def __init__(self, typ, target, long=False, gap1=None, gap2=None):
+        self.typ, self.target, self.long = typ, target, long
+        self.gap1 = gap1 or Gap()    # between #^ and the type
+        self.gap2 = gap2 or Gap()    # between the type and the target
 
     def _long(self, R):
         return self.long if R.sugar == "chosen" else R.sugar == "long"
@@ -726,12 +731,18 @@ class Annot(Node):
             R.push(("S", "annotate", 2))
             h = sym("annotate", own=False)
             rich = R.seps == "rich"
-            R.raw(self.ws1 if rich else "")
             R.bound("hash")
+            if rich and self.gap1.elts:
+                self.gap1.render(R)
             ty = self.typ.render(R)
             R.retop(("S", "annotate", 1))
-            R.raw(self.ws2 if rich else " ")
             R.bound("sib")
+            if rich:
+                self.gap2.render(R)
+                if self.gap1.has_noise() or self.gap2.has_noise():
+                    R.tags.add("sugar-noise")
+            else:
+                R.raw(" ")
             tg = self.target.render(R)
             R.pop()
             R.tags.add("sugar:#^")
@@ -796,20 +807,28 @@ def _count_noise(tree):
     """Number of comments/discards that sit in a gap of a *nested* sequence."""
     n = 0
 
+    def gapnoise(g, nested):
+        nonlocal n
+        for e in g.elts:
+            if e[0] != "ws" and nested:
+                n += 1
+            if e[0] == "dis":
+                gapnoise(e[2], nested)
+                walk(e[3], True)
+
     def walk(node, nested):
         nonlocal n
         if isinstance(node, (Seq, Top)):
             for g in node.gaps:
-                for e in g.elts:
-                    if e[0] != "ws" and nested:
-                        n += 1
-                    if e[0] == "dis":
-                        walk(e[3], True)
+                gapnoise(g, nested)
             for it in node.items:
                 walk(it, True)
         elif isinstance(node, Sugar):
+            gapnoise(node.gap, nested)
             walk(node.child, nested)
         elif isinstance(node, Annot):
+            gapnoise(node.gap1, nested)
+            gapnoise(node.gap2, nested)
             walk(node.typ, nested)
             walk(node.target, nested)
         elif isinstance(node, FStr):
@@ -1041,7 +1060,22 @@ def gen_string(rng, cfg):
     return Str(prefix, _string_pieces(rng, prefix, cfg))
 
 
-_DELIMS = ["", "", "=", "==", "foo", "a b", "x\"y", "(", "é", "--", "F", "ff", "t", "b"]
+_DELIMS = ["", "=", "==", "foo", "foo", "end", "a b", "x\"y", "(", "é", "--", "F", "ff", "t", "b", "abab"]
+
+
+def _false_start(rng, delim):
+    """Text that begins like the closer ]delim] but is not it: `]`, `]fo`,
+    `]fo]`, `]foo` + another character, `]fo]fo` ... (the caller still checks
+    that the closer proper does not occur)."""
+    fs = "]" + delim[:rng.randint(0, len(delim))]
+    r = rng.random()
+    if r < 0.3:
+        return fs
+    if r < 0.55:
+        return fs + "]"
+    if r < 0.8:
+        return fs + rng.choice("xz d")
+    return fs + "]" + delim[:rng.randint(0, len(delim))]
 
 
 def gen_bstr(rng, cfg):
@@ -1057,10 +1091,12 @@ def gen_bstr(rng, cfg):
                 parts.append(rng.choice(_PLAIN + '"\\{}'))
             elif r < 0.6:
                 parts.append(rng.choice(_NONASCII))
-            elif r < 0.75:
-                parts.append(rng.choice(["]", "]" + delim, "]" + delim[:1], "[", "]]" if delim else "]"]))
+            elif r < 0.8:
+                parts.append(rng.choice([_false_start(rng, delim), _false_start(rng, delim), "[", "]" + delim]))
             else:
                 parts.append(rng.choice(["\n", "\r\n", "\r"]))
+        if delim and rng.random() < 0.4:
+            parts.append(_false_start(rng, delim))     # a false start right before the closer
         body = "".join(parts)
         if (body + closer).find(closer) == len(body):
             break
@@ -1132,7 +1168,8 @@ def gen_fstring(rng, cfg, depth):
         if node.delim is None:
             return node
         t = render(Top([node], [Gap(), Gap()]), cuts=False).text
-        if t.count("]" + node.delim + "]") == 1:
+        closer = "]" + node.delim + "]"
+        if t.find(closer) == len(t) - len(closer):
             return node
     return FStr([Lit([("a", "a")]), Field(Atom("x", sym("x"), "symbol"))], "f", node.delim)
 
@@ -1157,6 +1194,9 @@ def _gen_fstring(rng, cfg, depth):
                     pcs.append((ch, ch))
                 if rng.random() < 0.3:
                     pcs.append(rng.choice([("{{", "{"), ("}}", "}"), ("\r\n", "\n"), ("\r", "\n")]))
+                if rng.random() < 0.45:
+                    fs = _false_start(rng, delim)     # looks like the start of ]delim]
+                    pcs.append((fs, fs))
             else:
                 pcs = _string_pieces(rng, "r" if raw else "", cfg, fstring=True, n=rng.randint(1, 4))
             if parts and isinstance(parts[-1], Lit):
@@ -1208,6 +1248,17 @@ def gen_gap(rng, cfg, depth, force_noise=False, top=False):
     return Gap(elts)
 
 
+def _gen_prefix_gap(rng, cfg, depth):
+    """Separators between a sugar prefix (' ` ~ ~@ #* #** #^) and its operand:
+    mostly nothing, else whitespace, else the full mix (comments, discards)."""
+    r = rng.random()
+    if r < 0.5:
+        return Gap()
+    if r < 0.75:
+        return Gap([("ws", _gen_ws(rng, cfg, allow_empty=False))])
+    return gen_gap(rng, cfg, depth + 1, force_noise=rng.random() < 0.6)
+
+
 def gen_seq(rng, cfg, depth, kind=None):
     kind = kind or rng.choice(["expr", "expr", "expr", "list", "list", "dict", "set", "tuple"])
     n = rng.choice([0, 1, 2, 2, 3, 3, 4, 5]) if cfg.left > 0 else rng.choice([0, 1])
@@ -1243,13 +1294,15 @@ def gen_form(rng, cfg, depth, infield=False):
     if r < 0.80:
         head = rng.choice(list(_SUGAR))
         child = gen_form(rng, cfg, depth + 1)
-        ws = rng.choice(["", "", "", " ", " ", "\n", "\t", "  ", "\r\n"])
-        return Sugar(head, child, long=rng.random() < 0.25, ws=ws)
+        return Sugar(head, child, long=rng.random() < 0.25, gap=_gen_prefix_gap(rng, cfg, depth))
     if r < 0.86:
         typ = gen_form(rng, cfg, depth + 1)
         target = gen_form(rng, cfg, depth + 1)
+        gap2 = _gen_prefix_gap(rng, cfg, depth)
+        if not gap2.elts:
+            gap2 = Gap([("ws", rng.choice([" ", " ", "\n", "  "]))])
         return Annot(typ, target, long=rng.random() < 0.25,
-                     ws1=rng.choice(["", " ", " ", "\n"]), ws2=rng.choice([" ", " ", "\n", "  "]))
+                     gap1=_gen_prefix_gap(rng, cfg, depth), gap2=gap2)
     if r < 0.86 + 0.12 * cfg.fstring:
         return gen_fstring(rng, cfg, depth)
     return gen_string(rng, cfg)
